@@ -85,6 +85,71 @@ func ReadPostingsReuse(d segment.TermDictionary, term []byte, except *roaring.Bi
 	return hits, pl.Count(), nil
 }
 
+// InterleavedLookups reads like a conjunction query does: an iterator obtained for an absent term is
+// recycled (prealloc) for a present term, one hit is taken, an absent term of another field is
+// looked up (must be empty), then the first iterator is drained (must yield the rest of its hits).
+func InterleavedLookups(s segment.Segment, c *Content) (bad string) {
+	defer func() {
+		if r := recover(); r != nil {
+			bad = fmt.Sprintf("PANIC in interleaved lookups: %v", r)
+		}
+	}()
+	for _, fd := range c.Dicts {
+		d, err := s.Dictionary(fd.Field)
+		if err != nil {
+			return err.Error()
+		}
+		for _, th := range fd.Terms {
+			if len(th.Hits) < 2 {
+				continue
+			}
+			absent := []byte("\xf0no-such-term")
+			plMiss, err := d.PostingsList(absent, nil, nil)
+			if err != nil {
+				return err.Error()
+			}
+			itMiss := plMiss.Iterator(true, true, true, nil)
+			if p, _ := itMiss.Next(); p != nil {
+				return fmt.Sprintf("absent term of %s yields a posting", fd.Field)
+			}
+			pl, err := d.PostingsList([]byte(th.Term), nil, plMiss)
+			if err != nil {
+				return err.Error()
+			}
+			it := pl.Iterator(true, true, true, itMiss)
+			p, err := it.Next()
+			if err != nil || p == nil || p.Number() != th.Hits[0].Doc {
+				return fmt.Sprintf("%s/%q through recycled objects: first hit %v (err %v), want doc %d", fd.Field, th.Term, p, err, th.Hits[0].Doc)
+			}
+			// meanwhile: another absent lookup, in every field
+			for _, fd2 := range c.Dicts {
+				d2, err := s.Dictionary(fd2.Field)
+				if err != nil {
+					return err.Error()
+				}
+				pl2, err := d2.PostingsList(absent, nil, nil)
+				if err != nil {
+					return err.Error()
+				}
+				if q, _ := pl2.Iterator(true, true, true, nil).Next(); q != nil || pl2.Count() != 0 {
+					return fmt.Sprintf("while an iterator over %s/%q (recycled from a lookup that missed) is half read, a term that is not in field %s yields doc %d", fd.Field, th.Term, fd2.Field, q.Number())
+				}
+			}
+			for i := 1; i < len(th.Hits); i++ {
+				p, err := it.Next()
+				if err != nil || p == nil || p.Number() != th.Hits[i].Doc || p.Frequency() != th.Hits[i].Freq {
+					return fmt.Sprintf("%s/%q through recycled objects, interleaved with lookups of absent terms: hit %d is %v (err %v), want doc %d freq %d", fd.Field, th.Term, i, p, err, th.Hits[i].Doc, th.Hits[i].Freq)
+				}
+			}
+			if p, _ := it.Next(); p != nil {
+				return fmt.Sprintf("%s/%q through recycled objects: an extra hit doc %d after the last one", fd.Field, th.Term, p.Number())
+			}
+			break // one term per field
+		}
+	}
+	return ""
+}
+
 // CheckDictCounts makes Dump also compare DictEntry.Count with the postings count (C08's concern).
 var CheckDictCounts = false
 
